@@ -239,5 +239,35 @@ def handleWake (nq : Nat) (fresh : Bool) (ops : List Op) : String :=
   Util.joinWith " " r.2 ++ " | " ++ Util.joinWith "," (r.1.d.qs.map showQ) ++ s!" | in={r.1.inb.length} out={r.1.outb.length}"
 
 end Drv
+/-! ## Request bookkeeping of a running memory-copy command (`defaultMemoryCopyMiddleware`)
+`processMemCopyH2DCommand`/`…D2H…` add one `FlushReq` per GPU (when a dirty buffer overlaps) and
+the copy requests to `cmd.Reqs`. `processMemCopyH2DReturn`/`…D2H…` remove the answered request and
+dequeue the command when `len(cmd.Reqs) == 0`; `processFlushReturn` ONLY removes the request. -/
+namespace Copy
+
+inductive RKind | flush | copy
+deriving DecidableEq, Repr
+
+structure CQ where
+  /-- outstanding `FlushReq`s / copy requests in `cmd.Reqs` -/
+  f : Nat
+  c : Nat
+  /-- the command is still at the head of its queue (`IsRunning` set) -/
+  queued : Bool := true
+deriving DecidableEq, Repr
+
+def deliver (s : CQ) : RKind → CQ
+  | .flush => { s with f := s.f - 1 }                                          -- processFlushReturn
+  | .copy => { s with c := s.c - 1, queued := s.queued && !(s.f + (s.c - 1) == 0) }   -- processMemCopy…Return
+
+def run (nf nc : Nat) (order : List RKind) : CQ := order.foldl deliver { f := nf, c := nc }
+
+/-- every request is answered exactly once -/
+def validOrder (nf nc : Nat) (o : List RKind) : Prop := o.count .flush = nf ∧ o.count .copy = nc
+instance (nf nc : Nat) (o : List RKind) : Decidable (validOrder nf nc o) := by unfold validOrder; exact inferInstance
+
+end Copy
+
 end W
+
 end C12
